@@ -34,6 +34,7 @@ type specEnv struct {
 
 type sv struct {
 	Val
+	unk  bool     // stands for something the current body does not have (a call site that is gone): any comparison with it is undetermined
 	lit  *big.Int // untyped integer literal
 	flit string   // untyped float literal text
 	isNil bool
@@ -107,6 +108,13 @@ var tBool = types.Typ[types.Bool]
 
 func (e *specEnv) term(v sv, want types.Type) string {
 	u := e.u
+	if v.unk {
+		// an undetermined value in a position where its sort is known
+		if want == nil {
+			sfail("the contract refers to a call the current body does not make")
+		}
+		return u.declConst("unk_val", u.sortOf(want))
+	}
 	if v.lit != nil {
 		if want == nil {
 			want = tInt
@@ -268,7 +276,13 @@ func (e *specEnv) binary(n *EBinary, hint types.Type) sv {
 		opHint = nil
 	}
 	a := e.eval(n.X, opHint)
+	if a.unk && isCmp {
+		return sv{Val: Val{t: u.declConst("unk_cmp", "Bool"), typ: tBool}}
+	}
 	b := e.eval(n.Y, orType(a.typ, opHint))
+	if b.unk && isCmp {
+		return sv{Val: Val{t: u.declConst("unk_cmp", "Bool"), typ: tBool}}
+	}
 	if a.typ == nil && b.typ != nil {
 		a = e.eval(n.X, b.typ)
 	}
@@ -482,6 +496,9 @@ func (e *specEnv) quant(n *EQuant) sv {
 func (e *specEnv) indexExpr(n *EIndex) sv {
 	u := e.u
 	x := e.eval(n.X, nil)
+	if x.unk {
+		return sv{unk: true}
+	}
 	if x.typ == nil {
 		sfail("cannot index a literal")
 	}
@@ -584,6 +601,9 @@ func (e *specEnv) fieldExpr(n *EField) sv {
 		}
 	}
 	x := e.eval(n.X, nil)
+	if x.unk {
+		return sv{unk: true}
+	}
 	if x.typ == nil {
 		sfail("field of literal")
 	}
